@@ -82,3 +82,95 @@ func unparen(e ast.Expr) ast.Expr {
 		e = p.X
 	}
 }
+
+// ConstLeftEdits finds, in the type-checked files of the module, every comparison with a constant or nil on the
+// left and something else on the right (`K == x`, `nil != p`, `K < x`) and returns, per file, the source text with
+// the operands exchanged and an ordering operator flipped (`x == K`, `p != nil`, `x > K`), so that the rules see one
+// orientation. The text is rewritten (and loaded again through an overlay) instead of the tree, because the rules
+// locate nodes by position and a BinaryExpr whose operands changed places in the tree would have no extent. Both
+// operands are evaluated without calls (len, cap and conversions aside), so the order of evaluation does not matter;
+// line numbers are unchanged unless an operand spans lines. Nested sites are left for the next pass.
+func ConstLeftEdits(fset *token.FileSet, info *types.Info, files []*ast.File, read func(string) ([]byte, error)) (map[string][]byte, error) {
+	flip := map[token.Token]token.Token{token.EQL: token.EQL, token.NEQ: token.NEQ, token.LSS: token.GTR, token.GTR: token.LSS, token.LEQ: token.GEQ, token.GEQ: token.LEQ}
+	isConst := func(e ast.Expr) bool {
+		tv, has := info.Types[e]
+		return has && (tv.Value != nil || tv.IsNil())
+	}
+	out := map[string][]byte{}
+	for _, f := range files {
+		var sites []*ast.BinaryExpr
+		ast.Inspect(f, func(m ast.Node) bool {
+			be, ok := m.(*ast.BinaryExpr)
+			if !ok {
+				return true
+			}
+			if _, cmp := flip[be.Op]; !cmp || !isConst(be.X) || isConst(be.Y) || !callFree(info, be.Y) {
+				return true
+			}
+			if x, isBin := be.X.(*ast.BinaryExpr); isBin {
+				if _, chained := flip[x.Op]; chained {
+					return true // a == b == c groups to the left: the operands cannot change places as text
+				}
+			}
+			sites = append(sites, be)
+			return false // nested sites wait for the next pass
+		})
+		if len(sites) == 0 {
+			continue
+		}
+		tf := fset.File(f.Pos())
+		name := tf.Name()
+		src, err := read(name)
+		if err != nil {
+			return nil, err
+		}
+		// from the end of the file to its beginning, so that earlier offsets stay valid
+		for i := len(sites) - 1; i >= 0; i-- {
+			be := sites[i]
+			xs, xe := tf.Offset(be.X.Pos()), tf.Offset(be.X.End())
+			ys, ye := tf.Offset(be.Y.Pos()), tf.Offset(be.Y.End())
+			os := tf.Offset(be.OpPos)
+			ol := len(be.Op.String())
+			if !(xs < xe && xe <= os && os+ol <= ys && ys < ye && ye <= len(src)) {
+				continue
+			}
+			var nb []byte
+			nb = append(nb, src[:xs]...)
+			nb = append(nb, src[ys:ye]...)
+			nb = append(nb, src[xe:os]...)
+			nb = append(nb, flip[be.Op].String()...)
+			nb = append(nb, src[os+ol:ys]...)
+			nb = append(nb, src[xs:xe]...)
+			nb = append(nb, src[ye:]...)
+			src = nb
+		}
+		out[name] = src
+	}
+	return out, nil
+}
+
+func callFree(info *types.Info, e ast.Expr) bool {
+	ok := true
+	ast.Inspect(e, func(m ast.Node) bool {
+		switch x := m.(type) {
+		case *ast.CallExpr:
+			if tv, has := info.Types[x.Fun]; has && tv.IsType() {
+				return true
+			}
+			if id, isID := x.Fun.(*ast.Ident); isID && (id.Name == "len" || id.Name == "cap") {
+				if _, isB := info.Uses[id].(*types.Builtin); isB {
+					return true
+				}
+			}
+			ok = false
+		case *ast.FuncLit:
+			ok = false
+		case *ast.UnaryExpr:
+			if x.Op == token.ARROW {
+				ok = false
+			}
+		}
+		return ok
+	})
+	return ok
+}
